@@ -103,8 +103,8 @@ package types
 //@   let end = ite(l.table.big, listBigEnd(T, s, i), listSmallEnd(T, s, i))
 //@   let start = ite(i == 0, 0, ite(l.table.big, listBigEnd(T, s, i - 1), listSmallEnd(T, s, i - 1)))
 //@   ensures[C02] within(result, l.bytes)
-//@   ensures[C01,C16] start <= end && end <= l.table.data ==> result == l.bytes[start:end]
-//@   ensures[C01,C16] start > end || end > l.table.data ==> len(result) == 0
+//@   ensures[C01,C16,C13] start <= end && end <= l.table.data ==> result == l.bytes[start:end]
+//@   ensures[C01,C16,C13] start > end || end > l.table.data ==> len(result) == 0
 //@   noalloc[C17]
 
 //@ func (List).GetBytes
@@ -116,8 +116,8 @@ package types
 //@   let end = ite(l.table.big, listBigEnd(T, s, i), listSmallEnd(T, s, i))
 //@   let start = ite(i == 0, 0, ite(l.table.big, listBigEnd(T, s, i - 1), listSmallEnd(T, s, i - 1)))
 //@   ensures[C02] within(result, l.bytes)
-//@   ensures[C01,C16] start <= end && end <= l.table.data ==> result == l.bytes[start:end]
-//@   ensures[C01,C16] start > end || end > l.table.data ==> len(result) == 0
+//@   ensures[C01,C16,C13] start <= end && end <= l.table.data ==> result == l.bytes[start:end]
+//@   ensures[C01,C16,C13] start > end || end > l.table.data ==> len(result) == 0
 //@   noalloc[C17]
 
 // ---- messages
@@ -194,8 +194,8 @@ package types
 //@   let s = lo(m.table.table)
 //@   let e = ite(m.table.big, bigOff(T, s, i), smallOff(T, s, i))
 //@   let n = ite(m.table.big, len(m.table.table) / 6, len(m.table.table) / 3)
-//@   ensures[C01,C16] 0 <= i && i < n && e <= m.table.data ==> result == m.bytes[:e]
-//@   ensures[C01,C16] 0 <= i && i < n && e > m.table.data ==> len(result) == 0
+//@   ensures[C01,C16,C13] 0 <= i && i < n && e <= m.table.data ==> result == m.bytes[:e]
+//@   ensures[C01,C16,C13] 0 <= i && i < n && e > m.table.data ==> len(result) == 0
 
 //@ func (Message).HasField
 //@   safety[C02]
@@ -400,8 +400,8 @@ package types
 //@   let e = ite(m.table.big, bigOff(T, s, i), smallOff(T, s, i))
 //@   let n = ite(m.table.big, len(m.table.table) / 6, len(m.table.table) / 3)
 //@   let vs = valueSize(mem(m.bytes), lo(m.bytes), lo(m.bytes) + e)
-//@   ensures[C01,C16] 0 <= i && i < n && 0 < e && e <= m.table.data && vs > 0 ==> result == m.bytes[e-vs:e]
-//@   ensures[C01,C16] 0 <= i && i < n && e > m.table.data ==> len(result) == 0
+//@   ensures[C01,C16,C13] 0 <= i && i < n && 0 < e && e <= m.table.data && vs > 0 ==> result == m.bytes[e-vs:e]
+//@   ensures[C01,C16,C13] 0 <= i && i < n && e > m.table.data ==> len(result) == 0
 
 //@ func (Message).FieldRaw
 //@   safety[C02]
